@@ -279,7 +279,7 @@ func (x *Exec) derefLV(ptr Value, elemT types.Type) *LValue {
 	if ptr.LV != nil {
 		return ptr.LV
 	}
-	if _, ok := elemT.Underlying().(*types.Array); ok {
+	if _, ok := elemT.Underlying().(*types.Array); ok && !isUUID(elemT) {
 		at := elemT.Underlying().(*types.Array)
 		key, sort := elemHeapKey(at.Elem())
 		heapSorts[key] = sort
